@@ -22,9 +22,9 @@ LEVEL = "fault_enumeration"
 JAIL = True
 PY = sys.executable
 
-HISTORIES = [("expunge", ""), ("deletebox", ""), ("messages", ""), ("namespace", ""), ("inboxpack", ""), ("startup", ""), ("startup", "preexisting"), ("messages", "preexisting"),
+HISTORIES = [("expunge", ""), ("deletebox", ""), ("renameinbox", ""), ("messages", ""), ("namespace", ""), ("inboxpack", ""), ("startup", ""), ("startup", "preexisting"), ("messages", "preexisting"),
              ("startup", "schema0"), ("startup", "schema1"), ("startup", "schema2"), ("startup", "schema3"), ("startup", "schema4"), ("startup", "schema5")]
-QUICK = [("expunge", ""), ("deletebox", ""), ("messages", ""), ("namespace", ""), ("startup", ""), ("startup", "schema1"), ("startup", "schema4"), ("inboxpack", "")]
+QUICK = [("expunge", ""), ("deletebox", ""), ("renameinbox", ""), ("messages", ""), ("namespace", ""), ("startup", ""), ("startup", "schema1"), ("startup", "schema4"), ("inboxpack", "")]
 
 
 def run_child(scratch, hist, variant, k, tag, points=False):
@@ -262,7 +262,7 @@ def plan(tier, seed, scale):
             parts = 4
         for part in range(parts):
             sp = {"prop": PROP, "tier": tier, "seed": seed, "hist": hist, "variant": variant, "part": part, "parts": parts, "scripts": [0]}
-            if tier == "quick" and hist not in ("startup", "expunge", "deletebox"):
+            if tier == "quick" and hist not in ("startup", "expunge", "deletebox", "renameinbox"):
                 sp["limit"] = int(30 * scale)
             specs.append(sp)
     # syscall-level lanes (strace fault injection)
